@@ -7,6 +7,7 @@ import (
 	"fmt"
 	"io"
 	"reflect"
+	"runtime"
 
 	"github.com/segmentio/encoding/proto"
 )
@@ -86,7 +87,22 @@ func pTopLevelTo(seed uint64) {
 	s := r.str()
 	u := r.next()
 	i32 := int32(r.next())
-	vals := []any{bs, &bs, long, arr, &arr, s, &s, u, &u, i32, uint32(u), float64(u), true}
+	fl, tr, zs, zu := false, true, "", uint64(0)
+	pfl := &fl
+	vals := []any{bs, &bs, long, arr, &arr, s, &s, u, &u, i32, uint32(u), float64(u), true,
+		false, &fl, &tr, &pfl, &zs, &zu, "", "x", namedStr(s), namedBool(false), &[]namedBool{false}[0]} // explicit zero values behind pointers have Size 1 or 2
+	// gogoproto-style custom messages (Size / MarshalTo / Unmarshal), top-level and nested: the user's MarshalTo is
+	// never handed a destination shorter than its Size()
+	cm := &CustomMsg{Data: append([]byte(nil), bs...)}
+	vals = append(vals, cm, &CustomMsg{}, &CustomMsg{Data: long},
+		&customHolder{A: i32, C: CustomMsg{Data: []byte(s)}, D: &CustomMsg{Data: append([]byte(nil), bs...)}, E: u},
+		&customHolder{C: CustomMsg{Data: long}})
+	// values implementing proto.Message (RawMessage, a user type with Size/Marshal/Unmarshal), and pointers to them:
+	// written as they are at top level, never with the length prefix of the nested form
+	raw := proto.RawMessage(append([]byte{0x08, 0x96, 0x01, 0x12, 0x02}, "hi"...))
+	rawLong := proto.RawMessage(bytes.Repeat([]byte{0x08, 0x01}, 100))
+	vals = append(vals, raw, &raw, proto.RawMessage{}, rawLong, &userMsg{N: u | 1, S: s}, &userMsg{})
+	customShort = ""
 	for k, v := range vals {
 		if !mine() {
 			skip()
@@ -109,6 +125,9 @@ func pTopLevelTo(seed uint64) {
 						return fmt.Sprintf("WROTE-BEYOND-LEN at l=%d", l)
 					}
 				}
+				if customShort != "" {
+					return fmt.Sprintf("l=%d size=%d: %s", l, size, customShort)
+				}
 				switch {
 				case l < size && err != io.ErrShortBuffer && !isShort(err):
 					return fmt.Sprintf("l=%d<size=%d n=%d err=%v", l, size, n, err)
@@ -122,18 +141,352 @@ func pTopLevelTo(seed uint64) {
 	}
 }
 
+// CustomMsg is a gogoproto-style custom message; like generated code it relies on the caller for the space check
+type CustomMsg struct{ Data []byte }
+
+var customShort string
+
+func (m *CustomMsg) Size() int { return 1 + len(m.Data) }
+func (m *CustomMsg) MarshalTo(b []byte) (int, error) {
+	if len(b) < m.Size() {
+		customShort = fmt.Sprintf("custom MarshalTo handed %d bytes for Size %d", len(b), m.Size())
+		return 0, fmt.Errorf("custom: destination too small")
+	}
+	b[0] = 0xC5
+	copy(b[1:], m.Data)
+	return m.Size(), nil
+}
+func (m *CustomMsg) Unmarshal(b []byte) error {
+	if len(b) == 0 || b[0] != 0xC5 {
+		return fmt.Errorf("custom: bad input")
+	}
+	m.Data = append([]byte(nil), b[1:]...)
+	return nil
+}
+
+// userMsg implements proto.Message (Size / Marshal / Unmarshal) by hand: field 1 varint, field 2 bytes
+type userMsg struct {
+	N uint64
+	S string
+}
+
+func (m *userMsg) enc() []byte {
+	if m.N == 0 && m.S == "" {
+		return nil
+	}
+	b := []byte{0x08}
+	for u := m.N; ; u >>= 7 {
+		if u < 0x80 {
+			b = append(b, byte(u))
+			break
+		}
+		b = append(b, byte(u)|0x80)
+	}
+	b = append(b, 0x12, byte(len(m.S)))
+	return append(b, m.S...)
+}
+func (m *userMsg) Size() int { return len(m.enc()) }
+func (m *userMsg) Marshal(b []byte) error {
+	if len(b) != m.Size() {
+		customShort = fmt.Sprintf("user Marshal handed %d bytes for Size %d", len(b), m.Size())
+		return fmt.Errorf("userMsg: wrong destination size")
+	}
+	copy(b, m.enc())
+	return nil
+}
+func (m *userMsg) Unmarshal(b []byte) error { return nil }
+
+type customHolder struct {
+	A int32      `protobuf:"varint,1,opt,name=a"`
+	C CustomMsg  `protobuf:"bytes,2,opt,name=c"`
+	D *CustomMsg `protobuf:"bytes,3,opt,name=d"`
+	E uint64     `protobuf:"fixed64,4,opt,name=e"`
+}
+
+type namedStr string
+type namedBool bool
+
 func isShort(err error) bool {
 	return err != nil && (err == io.ErrShortBuffer || bytes.Contains([]byte(err.Error()), []byte("short buffer")))
+}
+
+// pCustom: gogoproto-style custom messages nested in a struct (value field, pointer field, followed by another
+// field). C03 (wire == false): Size agrees with Marshal and the round trip restores every byte the user's MarshalTo
+// wrote. C12 (wire == true): the bytes are tag, length, the user's bytes. The package writes TWO length prefixes (the
+// struct encoder's and the custom codec's own): recorded deviation dblprefix, reproduced so that any other
+// difference is still reported.
+func pCustom(seed uint64, wire bool) {
+	if !mine() {
+		skip()
+		return
+	}
+	r := &vrng{s: seed}
+	args := fmt.Sprint(seed)
+	fn := "p.custom"
+	if wire {
+		fn = "p.customwire"
+	}
+	trace(fn, args)
+	d1 := []byte(r.str() + "\x01")
+	d2 := bytes.Repeat([]byte{0xFF}, 1+r.n(200))
+	h := &customHolder{A: int32(r.n(1000)) + 1, C: CustomMsg{Data: d1}, D: &CustomMsg{Data: d2}, E: r.next() | 1}
+	build := func(dbl bool) []byte {
+		var want []byte
+		want = append(want, 0x08)
+		want = appendUvarint(want, uint64(h.A))
+		for i, d := range [][]byte{d1, d2} {
+			want = append(want, []byte{0x12, 0x1a}[i])
+			if dbl {
+				inner := appendUvarint(nil, uint64(1+len(d)))
+				want = appendUvarint(want, uint64(len(inner)+1+len(d)))
+			}
+			want = appendUvarint(want, uint64(1+len(d)))
+			want = append(append(want, 0xC5), d...)
+		}
+		want = append(want, 0x21)
+		for i := 0; i < 8; i++ {
+			want = append(want, byte(h.E>>(8*i)))
+		}
+		return want
+	}
+	var got []byte
+	impl := guarded(func() string {
+		customShort = ""
+		b, err := proto.Marshal(h)
+		if err != nil {
+			return "err:marshal " + customShort
+		}
+		got = b
+		if n := proto.Size(h); n != len(b) {
+			return fmt.Sprintf("size=%d len=%d", n, len(b))
+		}
+		var back customHolder
+		if err := proto.Unmarshal(b, &back); err != nil {
+			return "rt=err"
+		}
+		if back.A != h.A || !bytes.Equal(back.C.Data, d1) || back.D == nil || !bytes.Equal(back.D.Data, d2) || back.E != h.E {
+			return "rt=DIFFERENT"
+		}
+		return "rt=ok"
+	})
+	if !wire {
+		emit(fn, args, impl, "rt=ok")
+		return
+	}
+	spec := hexs(build(false))
+	orc := spec
+	if hexs(got) != spec && bytes.Equal(got, build(true)) {
+		orc = "spec=" + spec + " known-deviations=dblprefix"
+	}
+	if impl == "rt=ok" {
+		impl = hexs(got)
+	}
+	emit(fn, args, impl, orc)
+}
+
+func appendUvarint(b []byte, u uint64) []byte {
+	for u >= 0x80 {
+		b = append(b, byte(u)|0x80)
+		u >>= 7
+	}
+	return append(b, byte(u))
 }
 
 func c03Fixed2(n int) {
 	for i := 0; i < n; i++ {
 		pUnexported(rnd())
+		pCustom(rnd(), false)
+	}
+	for k := 0; k < 8; k++ {
+		pSeq(k)
+	}
+}
+
+// length-prefix boundaries: a struct whose last field is an embedded message (by value, by pointer, with a one-byte
+// and a two-byte tag) whose payload is 125..129 or 16381..16385 bytes, so that the payload, and the tag plus payload,
+// cross the one/two-byte and two/three-byte varint boundaries at different sizes; MarshalTo into every destination
+// length around Size
+type mtoInner struct{ S string }
+type mtoOuterV struct {
+	A int
+	M mtoInner
+}
+type mtoOuterP struct {
+	A int64     `protobuf:"varint,1,opt,name=a"`
+	M *mtoInner `protobuf:"bytes,17,opt,name=m"`
+}
+type mtoOuterOnly struct{ M mtoInner }
+type mtoOuterNested struct {
+	B bool
+	O mtoOuterV
+}
+
+func pBoundaryTo() {
+	for _, base := range []int{127, 16383} {
+		for d := -6; d <= 3; d++ {
+			n := base + d
+			if !mine() {
+				skip()
+				continue
+			}
+			args := fmt.Sprint(n)
+			trace("p.boundto", args)
+			str := string(bytes.Repeat([]byte("s"), n))
+			vals := []any{&mtoOuterV{A: 1, M: mtoInner{str}}, mtoOuterV{A: 300, M: mtoInner{str}}, &mtoOuterP{A: 1, M: &mtoInner{str}}, &mtoOuterOnly{mtoInner{str}},
+				&mtoOuterNested{true, mtoOuterV{A: 1, M: mtoInner{str}}}}
+			impl := guarded(func() string {
+				for vi, v := range vals {
+					size := proto.Size(v)
+					full, err := proto.Marshal(v)
+					if err != nil || len(full) != size {
+						return fmt.Sprintf("value %d: size=%d marshal-len=%d err=%v", vi, size, len(full), err)
+					}
+					lo := size - 140
+					if lo < 0 {
+						lo = 0
+					}
+					for l := lo; l <= size+2; l++ {
+						const guard = 8
+						buf := bytes.Repeat([]byte{0xEE}, l+guard)
+						k, err := proto.MarshalTo(buf[:l:l+guard], v)
+						for _, g := range buf[l:] {
+							if g != 0xEE {
+								return fmt.Sprintf("value %d: WROTE-BEYOND-LEN at l=%d", vi, l)
+							}
+						}
+						switch {
+						case l < size && !isShort(err):
+							return fmt.Sprintf("value %d: l=%d<size=%d n=%d err=%v", vi, l, size, k, err)
+						case l >= size && (err != nil || k != size || !bytes.Equal(buf[:k], full)):
+							return fmt.Sprintf("value %d: l=%d>=size=%d n=%d err=%v", vi, l, size, k, err)
+						}
+					}
+				}
+				return "ok"
+			})
+			emit("p.boundto", args, impl, "ok")
+		}
 	}
 }
 
 func c16TopLevel(n int) {
+	pBoundaryTo()
 	for i := 0; i < n; i++ {
 		pTopLevelTo(rnd())
+	}
+}
+
+// pSeq: a FAILED Unmarshal followed by a round trip of another value of the same type: the scratch key/value struct
+// of the map decoder goes back to its pool on the error path and must not carry the rejected entry into the next decode
+type pSeqT struct {
+	A int
+	B string
+	C []byte
+}
+type pSeqM struct{ M map[string]pSeqT }
+type pSeqMP struct{ M map[string]*pSeqT }
+
+func pSeq(k int) {
+	if !mine() {
+		skip()
+		return
+	}
+	args := fmt.Sprint(k)
+	trace("p.seq", args)
+	inner := append([]byte{0x08, 0x07, 0x12, 0x05}, "stale"...)
+	inner = append(inner, 0x1a, 0x7f) // field C announces 127 bytes that are not there
+	entry := append([]byte{0x0a, 0x01, 'x', 0x12, byte(len(inner))}, inner...)
+	bad := append([]byte{0x0a, byte(len(entry))}, entry...)
+	impl := guarded(func() string {
+		for round := 0; round < 40; round++ {
+			var m1 pSeqM
+			var m2 pSeqMP
+			if proto.Unmarshal(bad, &m1) == nil || proto.Unmarshal(bad, &m2) == nil {
+				return "BAD-MESSAGE-ACCEPTED"
+			}
+			v1 := pSeqM{M: map[string]pSeqT{"a": {A: 1 + k}}}
+			b1, err := proto.Marshal(&v1)
+			if err != nil {
+				return "err:marshal"
+			}
+			var r1 pSeqM
+			if err := proto.Unmarshal(b1, &r1); err != nil || !reflect.DeepEqual(r1.M["a"], v1.M["a"]) {
+				return fmt.Sprintf("round %d: map[string]T came back as %+v, want %+v (err %v)", round, r1.M["a"], v1.M["a"], err)
+			}
+			v2 := pSeqMP{M: map[string]*pSeqT{"a": {A: 2 + k}, "n": nil}}
+			b2, _ := proto.Marshal(&v2)
+			var r2 pSeqMP
+			if err := proto.Unmarshal(b2, &r2); err != nil || r2.M["a"] == nil || !reflect.DeepEqual(*r2.M["a"], *v2.M["a"]) {
+				return fmt.Sprintf("round %d: map[string]*T came back wrong (err %v)", round, err)
+			}
+		}
+		return "ok"
+	})
+	emit("p.seq", args, impl, "ok")
+}
+
+// pAlloc: memory allocated by Unmarshal stays within a constant factor of the input length (repeated fields grow
+// geometrically): a long repeated field of varints / of small messages
+type pAllocV struct{ V []uint64 }
+type pAllocM struct{ M []struct{ A int32 } }
+
+func pAlloc(kind, n int) {
+	if !mine() {
+		skip()
+		return
+	}
+	args := fmt.Sprintf("%d %d", kind, n)
+	trace("p.alloc", args)
+	impl := guarded(func() string {
+		var b []byte
+		var err error
+		if kind == 0 {
+			v := pAllocV{V: make([]uint64, n)}
+			for i := range v.V {
+				v.V[i] = uint64(300 + i%1000)
+			}
+			b, err = proto.Marshal(&v)
+		} else {
+			v := pAllocM{M: make([]struct{ A int32 }, n)}
+			for i := range v.M {
+				v.M[i].A = int32(1 + i%100)
+			}
+			b, err = proto.Marshal(&v)
+		}
+		if err != nil {
+			return "err:marshal"
+		}
+		var ms0, ms1 runtime.MemStats
+		runtime.GC()
+		runtime.ReadMemStats(&ms0)
+		if kind == 0 {
+			var r pAllocV
+			err = proto.Unmarshal(b, &r)
+			if err == nil && len(r.V) != n {
+				return "WRONG-LENGTH"
+			}
+		} else {
+			var r pAllocM
+			err = proto.Unmarshal(b, &r)
+			if err == nil && len(r.M) != n {
+				return "WRONG-LENGTH"
+			}
+		}
+		runtime.ReadMemStats(&ms1)
+		if err != nil {
+			return "err:unmarshal"
+		}
+		if delta := ms1.TotalAlloc - ms0.TotalAlloc; delta > 64*uint64(len(b))+1<<16 {
+			return fmt.Sprintf("ALLOCATED %d bytes for an input of %d bytes (factor %d)", delta, len(b), delta/uint64(len(b)))
+		}
+		return "ok"
+	})
+	emit("p.alloc", args, impl, "ok")
+}
+
+func c07Alloc() {
+	for _, n := range []int{1000, 10000, 30000} {
+		pAlloc(0, n)
+		pAlloc(1, n)
 	}
 }
